@@ -69,7 +69,11 @@ fn random_names(rng: &mut Rng, vocab: &[&str], max: u64, dups: bool) -> Vec<Stri
 }
 
 pub fn knobs_calls() -> Knobs {
-    Knobs { subs: (1, 3), blocks: (1, 5), w_ext_call: 60, w_int_call: 6, w_branch: 12, w_cbranch: 10, w_return: 8, ..Knobs::default() }
+    Knobs { subs: (1, 3), blocks: (1, 5), w_ext_call: 60, w_int_call: 6, w_branch: 12, w_cbranch: 10, w_return: 8,
+            // a third of the extern calls are conditionally executed calls: second jump after a CBranch
+            p_cond_call: (1, 3),
+            // listing order of the blocks independent of the execution order
+            shuffle_blocks: true, ..Knobs::default() }
 }
 
 /// Execute one recorded case on the real code.
